@@ -39,6 +39,7 @@ type Expr struct {
 	Out   int    // which output of the copy node
 	Kids  []*Expr
 	Mode  string // conv: id | filter | cverr
+	Share int    // array: > 0 = every array expression with this number wraps the same caller-owned slice
 }
 
 type CopyNode struct {
@@ -65,8 +66,11 @@ type Spec struct {
 	Consumers []Consumer
 }
 
-func P(i int) *Expr                 { return &Expr{Kind: "pipe", Pipe: i} }
-func A(items ...Item) *Expr         { return &Expr{Kind: "array", Items: items} }
+func P(i int) *Expr         { return &Expr{Kind: "pipe", Pipe: i} }
+func A(items ...Item) *Expr { return &Expr{Kind: "array", Items: items} }
+func AS(share int, items ...Item) *Expr {
+	return &Expr{Kind: "array", Items: items, Share: share}
+}
 func Cp(node, out int) *Expr        { return &Expr{Kind: "copy", Copy: node, Out: out} }
 func M(kids ...*Expr) *Expr         { return &Expr{Kind: "merge", Kids: kids} }
 func Cv(mode string, k *Expr) *Expr { return &Expr{Kind: "conv", Mode: mode, Kids: []*Expr{k}} }
@@ -263,13 +267,22 @@ func (sp *Spec) build() (func(), func(x *vsched.Exec) (string, error)) {
 			}
 		}
 		copies := make([][]*schema.StreamReader[Item], len(sp.Copies))
+		shared := map[int][]Item{}
 		var mk func(e *Expr) *schema.StreamReader[Item]
 		mk = func(e *Expr) *schema.StreamReader[Item] {
 			switch e.Kind {
 			case "pipe":
 				return readers[e.Pipe]
 			case "array":
-				return schema.StreamReaderFromArray(append([]Item{}, e.Items...))
+				// the caller's slice has spare capacity behind its length (a slice grown by append, a sub-slice of a
+				// buffer): whatever the framework derives from it must not write there
+				if e.Share > 0 {
+					if shared[e.Share] == nil {
+						shared[e.Share] = append(make([]Item, 0, len(e.Items)+4), e.Items...)
+					}
+					return schema.StreamReaderFromArray(shared[e.Share])
+				}
+				return schema.StreamReaderFromArray(append(make([]Item, 0, len(e.Items)+4), e.Items...))
 			case "copy":
 				if copies[e.Copy] == nil {
 					copies[e.Copy] = mk(sp.Copies[e.Copy].In).Copy(sp.Copies[e.Copy].N)
@@ -495,6 +508,17 @@ func templates() []template {
 		{"mergeOfMerge", 3, 1, func(ps []PipeSpec) ([]CopyNode, []*Expr) { return nil, []*Expr{M(M(P(0), P(1)), P(2))} }, true},
 		{"arrayCopy", 0, 2, func(ps []PipeSpec) ([]CopyNode, []*Expr) {
 			return []CopyNode{{A(Item{V: 91}, Item{V: 92}), 2}}, []*Expr{Cp(0, 0), Cp(0, 1)}
+		}, false},
+		// array-backed readers: copies (or two readers over one caller slice) merged with further arrays; an
+		// all-array merge stays an array, a mixed one is sent into a channel when the merge is built
+		{"arrayCopyMerged", 0, 2, func(ps []PipeSpec) ([]CopyNode, []*Expr) {
+			return []CopyNode{{A(Item{V: 91}, Item{V: 92}), 2}}, []*Expr{M(Cp(0, 0), A(Item{V: 71})), M(Cp(0, 1), A(Item{V: 81}))}
+		}, false},
+		{"arraySharedMerged", 0, 2, func(ps []PipeSpec) ([]CopyNode, []*Expr) {
+			return nil, []*Expr{M(AS(1, Item{V: 91}, Item{V: 92}), A(Item{V: 71})), M(AS(1, Item{V: 91}, Item{V: 92}), A(Item{V: 81}))}
+		}, false},
+		{"arrayCopyMergedPipe", 1, 2, func(ps []PipeSpec) ([]CopyNode, []*Expr) {
+			return []CopyNode{{A(Item{V: 91}, Item{V: 92}), 2}}, []*Expr{M(Cp(0, 0), A(Item{V: 71})), M(Cp(0, 1), P(0))}
 		}, false},
 		{"copyOneMerged", 2, 2, func(ps []PipeSpec) ([]CopyNode, []*Expr) {
 			return []CopyNode{{P(0), 2}}, []*Expr{M(Cp(0, 0), P(1)), Cp(0, 1)}
